@@ -100,6 +100,66 @@ def w_cpp_accept(case):
         shutil.rmtree(out, ignore_errors=True)
 
 
+def w_rpc(case):
+    """`generate_rpc` on a copy of the parsed schema: what it adds (and that what was there stays as it was)"""
+    import copy
+    from fcp.parser import get_fcp_from_string
+    from fcp.error import Logger
+    from fcp.specs.type import StructType, EnumType
+    from fcp_cpp.rpc import generate_rpc
+
+    r = get_fcp_from_string(case["text"], Logger({}))
+    if r.is_err():
+        return {"rejected": True}
+    fcp = r.unwrap()
+    sd = fcp.to_dict()
+    try:
+        g = generate_rpc(copy.deepcopy(fcp))
+    except Exception as e:
+        return {"schema": sd, "raised": type(e).__name__ + ": " + str(e)[:100]}
+
+    def ty(t):
+        return ["enum", t.name] if isinstance(t, EnumType) else ["struct", t.name] if isinstance(t, StructType) else ["other"]
+    gd = g.to_dict()
+    n1, n2, n3 = len(fcp.structs), len(fcp.enums), len(fcp.impls)
+    return {"schema": sd,
+            "prefix_same": gd["structs"][:n1] == sd["structs"] and gd["enums"][:n2] == sd["enums"] and gd["impls"][:n3] == sd["impls"],
+            "structs": [{"name": s.name, "fields": [[f.name, f.field_id, ty(f.type)] for f in s.fields]} for s in g.structs[n1:]],
+            "enums": [{"name": e.name, "items": [[x.name, x.value] for x in e.enumeration]} for e in g.enums[n2:]],
+            "impls": [[i.name, i.protocol, i.type] for i in g.impls[n3:]]}
+
+
+def rpc_correspondence(rep, texts):
+    """the rpc layer against its model (Rpc.rpc): derived wrapper structs, id enums and default bindings, in order"""
+    from .common import run_driver_parallel
+    res = run_cases("harness.cpp", "w_rpc", [{"text": t} for t in texts], timeout_s=60)
+    ks = [k for k, r in enumerate(res) if "ok" in r and "schema" in r["ok"]]
+    mres = run_driver_parallel([{"op": "rpc", "schema": schema_to_wire(res[k]["ok"]["schema"])} for k in ks])
+    for k, m in zip(ks, mres):
+        o = res[k]["ok"]
+        rep.cov["evaluations"] += 1
+        base = {"schema": texts[k], "model": m}
+        if "driver_err" in m:
+            rep.violation(dict(base, kind="harness"), no_input=True)
+            continue
+        if "raised" in o or "none" in m:
+            same = ("raised" in o) == ("none" in m)
+            rep.hist("rpc_layer", "raises in both" if same else "raises in one only")
+            if not same:
+                rep.cov["disagreements_checked"] += 1
+                rep.violation(dict(base, kind="rpc-raise", observed=o.get("raised", "returned"),
+                                   what="generate_rpc and its model disagree on whether the rpc layer can be generated"), no_input=True)
+            continue
+        got = {"structs": o["structs"], "enums": o["enums"], "impls": o["impls"]}
+        ok = got == {"structs": m["structs"], "enums": m["enums"], "impls": m["impls"]} and o["prefix_same"]
+        rep.hist("rpc_layer", "equals the model" if ok else "differs")
+        if not ok:
+            rep.cov["disagreements_checked"] += 1
+            rep.violation(dict(base, kind="rpc-layer", observed=got, prefix_same=o["prefix_same"],
+                               what="the declarations generate_rpc adds differ from the model's (or it changed the user's declarations)"),
+                          no_input=o["prefix_same"])
+
+
 SERVICE_EDGES = [
     ("service id 255, method id 255", "service S @ 255 {\n    method m(A) @ 255 returns B,\n}"),
     ("service id 256", "service S @ 256 {\n    method m(A) @ 0 returns B,\n}"),
@@ -139,6 +199,9 @@ def service_edge_probe(rep):
     base = 'version: "3"\n\nenum E {\n    P = 0,\n    Q = 3,\n}\nstruct A {\n    x @ 0: u8,\n}\nstruct B {\n    y @ 0: i16,\n    e @ 1: E,\n}\n'
     cases = [{"text": base + body + "\n"} for _, body in SERVICE_EDGES]
     res = run_cases("harness.cpp", "w_cpp_accept", cases, timeout_s=120)
+    from .genmgr import rich_schema
+    rrng = random.Random(seed() * 7919 + 3)
+    rpc_correspondence(rep, [c["text"] for c in cases] + [rich_schema(rrng) for _ in range(40)])
     for (label, _), c, r in zip(SERVICE_EDGES, cases, res):
         rep.cov["evaluations"] += 1
         if "ok" not in r:
